@@ -78,6 +78,10 @@ impl Node {
 
     /// Stage 1 (insert) on `block`, exactly what the ChainService thread does per request.
     pub fn deliver(&self, block: &BlockView) {
+        self.deliver_with(block, None)
+    }
+
+    pub fn deliver_with(&self, block: &BlockView, switch: Option<ckb_verification_traits::Switch>) {
         let v = Arc::clone(&self.verdicts);
         let h = block.hash();
         let cb: Box<dyn FnOnce(VerifyResult) + Send + Sync> = Box::new(move |r: VerifyResult| {
@@ -85,7 +89,7 @@ impl Node {
         });
         self.chain.step_insert(LonelyBlock {
             block: Arc::new(block.clone()),
-            switch: None,
+            switch,
             verify_callback: Some(cb),
         });
     }
